@@ -1,6 +1,6 @@
 (* what the E1 case shards evaluate *)
 From Coq Require Import List ZArith Bool.
-From LP Require Import Trace.ZMap Trace.Concrete Trace.Abstract Trace.Spec Trace.Main Trace.TimeExact.
+From LP Require Import Trace.ZMap Trace.Concrete Trace.Abstract Trace.Spec Trace.AbstractFacts Trace.Main Trace.TimeExact Trace.Conserved.
 Import ListNotations.
 Open Scope Z_scope.
 
@@ -40,3 +40,34 @@ Definition theorem_rhs_ok (codes : list code) (tick : Z) (with_time : bool) (ops
 Definition verdicts6 (codes : list code) (tick : Z) (with_time : bool) (ops : list op) (impl : list snapshot)
   : bool * bool * bool * bool * bool * bool :=
   (verdicts4 codes tick with_time ops impl, no_collision codes ops, theorem_rhs_ok codes tick with_time ops impl).
+
+(* The conservation clause of C02 (Conserved.reported_times_sum_le_enabled) evaluated on the IMPLEMENTATION's
+   snapshots: at every get_stats() of a one-thread history, the times a label reports sum to at most the clock
+   time during which the thread had the profiler enabled up to that point.  Judged when the theorem's executable
+   hypotheses hold (no_collision, one thread) and the registered codes carry pairwise distinct labels (the report
+   merges codes of one label). *)
+Fixpoint snap_prefixes (pre ops : list op) : list (list op) :=
+  match ops with
+  | [] => []
+  | S :: t => rev (S :: pre) :: snap_prefixes (S :: pre) t
+  | o :: t => snap_prefixes (o :: pre) t
+  end.
+Definition label_total (snap : snapshot) (lbl : Z) : Z :=
+  fold_right (fun e acc => if Z.eqb (fst e) lbl then fold_right (fun x a => snd x + a) 0 (snd e) + acc else acc) 0 snap.
+Definition first_thread (ops : list op) : Z :=
+  match flat_map (fun o => match op_thread o with Some t => [t] | None => [] end) ops with t :: _ => t | [] => 0 end.
+Definition labels_distinct (codes : list code) (ops : list op) : bool :=
+  let rc := nodup Z.eq_dec (reg_codes ops) in
+  forallb (fun c1 => forallb (fun c2 => Z.eqb c1 c2 || negb (Z.eqb (c_lbl (nth_code codes c1)) (c_lbl (nth_code codes c2)))) rc) rc.
+Definition conserved_ok (codes : list code) (tick : Z) (ops : list op) (impl : list snapshot) : bool :=
+  let t0 := first_thread ops in
+  if negb (no_collision codes ops && single_threadb t0 ops && labels_distinct codes ops) then true else
+  forallb (fun ps =>
+     let '(pre, snap) := ps in
+     let en := enabled_time codes tick t0 pre in
+     forallb (fun c => label_total snap (c_lbl (nth_code codes c)) <=? en) (nodup Z.eq_dec (reg_codes pre)))
+    (combine (snap_prefixes [] ops) impl).
+
+Definition verdicts7 (codes : list code) (tick : Z) (with_time : bool) (ops : list op) (impl : list snapshot)
+  : bool * bool * bool * bool * bool * bool * bool :=
+  (verdicts6 codes tick with_time ops impl, conserved_ok codes tick ops impl).
